@@ -30,6 +30,12 @@ Record call := mkCall {
 
 Definition history := list call.
 
+(* monomorphic constructors for the generated case files (terms without
+   implicit arguments elaborate much faster) *)
+Definition kc (cl : N) (o : op) (inv : N) (r : res) (ret : N) : call := mkCall cl o inv (Some (r, ret)).
+Definition pz (t : bytes) (z : Z) : bytes * Z := (t, z).
+Definition pd (p : bytes) (s : f64) : dir := (p, s).
+
 (* ------------------------------------------------------------------ *)
 (* validation of a witness order *)
 Fixpoint nodupb (l : list nat) : bool :=
